@@ -148,4 +148,9 @@ def Ty.isNull : Ty → Bool
   | .null => true
   | _ => false
 
+/-- `spawn f(args)`: the call expression carries the `IsSpawn` flag. -/
+def Expr.isSpawn : Expr → Bool
+  | .call _ _ _ _ sw => sw
+  | _ => false
+
 end Hms.Core
